@@ -155,8 +155,10 @@ def make_aligner(tuples, calls):
         cigartuples = tuples
 
     class Aligner:
-        def __init__(self, ref):
+        def __init__(self, ref, *more, **options):
             calls.append(("ref", ref))
+            if more or options:
+                calls.append(("options", more, options))
             segs = []
             for op, ln in tuples:
                 segs.append(rt.vp_fmt_("%d%s", (ln, OPS[op])))
@@ -165,8 +167,10 @@ def make_aligner(tuples, calls):
                 cs = cs + s
             self.cigarstring = cs
 
-        def __call__(self, q, clip_cigar=False):
+        def __call__(self, q, clip_cigar=False, **options):
             calls.append(("query", q, clip_cigar))
+            if options:
+                calls.append(("options", (), options))
             return Res()
 
     return Aligner
@@ -218,6 +222,9 @@ def build(params):
                 if not (opt[1] == "cg:Z:4=2D1=13D3="):
                     return "pass-through changed the CIGAR"
                 return None
+            if any(c[0] == "options" for c in calls):
+                return "aligner configured with non-default options %r: the assumption that WFA2 returns an optimal alignment only covers its exact default mode" % (
+                    [c[1:] for c in calls if c[0] == "options"],)
             refc = [c for c in calls if c[0] == "ref"]
             qc = [c for c in calls if c[0] == "query"]
             if len(refc) != 1 or len(qc) != 1:
@@ -281,7 +288,7 @@ def replay(params, model, wd):
     except BaseException as e:  # noqa
         r = "exception %s: %s" % (type(e).__name__, e)
     if r and r != "SKIP":
-        key = "C12:" + ("roles" if "aligner" in r else "cigar" if "cg" in r or "CIGAR" in r else "counts" if "count" in r or "length" in r else
+        key = "C12:" + ("aligner-options" if "non-default options" in r else "roles" if "aligner" in r else "cigar" if "cg" in r or "CIGAR" in r else "counts" if "count" in r or "length" in r else
                         "guard" if "60000" in r else "columns" if "column" in r or "optional" in r else "other")
         return {"reproduced": True, "key": key, "what": r, "level": "unmodified realign_gaf/wfa_alignment around the stub aligner"}
     return {"reproduced": False, "detail": "real code satisfies the assertions for this input"}
